@@ -43,7 +43,6 @@ ASSUMPTIONS = [
     "'restores the original' is judged on content (point -> non-default value), not Tensor.__eq__",
 ]
 
-FORMS_T = ("ts", "te")
 GROUPS = ("swizzle", "flatten", "merge", "split", "update")
 
 
@@ -499,7 +498,7 @@ def run(ctx):
         plan = [("T2(3,2)", allf, GROUPS, None),
                 ("T2(3,3)", allf, GROUPS, None),
                 ("T3(2,2,2)", allf, GROUPS, None),
-                ("T4c(2,2,2,2;<=4|>=15)", ("ts", "f"), GROUPS, 420)]
+                ("T4c(2,2,2,2;<=4|>=15)", ("ts", "f"), GROUPS, 900)]
     only = getattr(ctx, "only", None)
     ctx.bounds = {
         "universes": [p[0] + " as " + "/".join(p[1]) for p in plan],
@@ -511,7 +510,8 @@ def run(ctx):
         "flatten": "flattenRanks(depth, levels, style) for every legal (depth, levels) x {tuple,pair,linear,absolute,"
                    "relative}, followed by unflattenRanks(depth, levels) for tuple and pair; raw: flattenRanks, "
                    "flattenRanksBelow, unflattenRanks, unflattenRanksBelow",
-        "merge": "mergeRanks(depth, levels, absolute|relative, merge_fn in {None, sum, max}) for every legal (depth, levels)",
+        "merge": "mergeRanks(depth, levels, absolute|relative, merge_fn in {None (the documented sum), max}) for every legal "
+                 "(depth, levels)",
         "split": "splitUniform / splitEqual with step 1 and 2 at every depth followed by flattenRanks(depth, 1, "
                  "'absolute'); raw: also the *Below forms",
         "update": "updateCoords(shift by 1 with new_shape, order-reversing) at every depth; updatePayloads at every "
